@@ -45,8 +45,9 @@ func ParseAssertStatement(node *sitter.Node, sourcecode []byte) *model.AssertStm
 
 func ParseReturnStatement(node *sitter.Node, sourcecode []byte) *model.ReturnStmt {
 	returnStmt := &model.ReturnStmt{}
-	if node.Child(1) != nil {
-		returnStmt.Result = &model.Expr{NodeString: node.Child(1).Content(sourcecode)}
+	// `return;` has no result: its second child is the semicolon
+	if result := node.NamedChild(0); result != nil {
+		returnStmt.Result = &model.Expr{NodeString: result.Content(sourcecode)}
 	}
 	return returnStmt
 }
